@@ -192,6 +192,7 @@ package protocol
 //@   token ready acquire recv:sendReadyChan consume call:transitionState
 //@   token accepted acquire ok:transitionState consume never:none
 //@   callback call:transitionState requires oldestfirst: len(queuedStateTransitions) > 0 ==> arg1 == queuedStateTransitions[0]
+//@   callback call:slices.Delete requires headonly: arg0 == queuedStateTransitions && arg1 == 0 && arg2 == 1
 //@   callback send:muxerSendChan requires accepted: holds(accepted)
 //@   callback send:muxerSendChan requires segment: arg0 != nil && len(arg0.Payload) <= 65535
 //@   loop 0 invariant !holds(ready)
